@@ -74,9 +74,23 @@ static int drv_primegen(const Opts &o)
 		default: if (c % 12 == 5) gen_line("smprime", 33, 32, mr, zero); else gen_line("smprime_naive", 33, 32, mr, zero); break;
 		}
 		// p = kq + 1
-		if (qs >= ps) qs = ps / 2;
+		// tmcg_mpz_lprime draws q ONCE and then only k (psize - qsize bits): with a small difference only a few k exist
+		// and the call never returns unless one of them gives a prime (e.g. psize 64, qsize 63: k = 2 only) — keep the
+		// cofactor at 24 bits or more
+		if (qs + 24 > ps) qs = ps / 2;
 		gen_line("lprime", ps, qs, mr, zero);
 		mpz_set_ui(kin, 1 + g.below(1000000)); if (g.below(4) == 0) mpz_set_ui(kin, 1); if (g.below(6) == 0) gen_bits(kin, g, ps - qs + 7), mpz_add_ui(kin, kin, 1);
+		// the cofactor is fixed by the prefix; when it only just reaches its size, q·k + 1 falls short of psize bits for
+		// (almost) every q and the library redraws for a very long time: take prefixes that leave at least about
+		// half of the q's usable
+		for (;;) {
+			Z kk, t; mpz_set(kk, kin);
+			while (mpz_sizeinbase(kk, 2) < (ps - qs)) mpz_mul_ui(kk, kk, TMCG_MPZ_IO_BASE);
+			if (mpz_odd_p(kk)) mpz_add_ui(kk, kk, 1);
+			mpz_set_ui(t, 3); mpz_mul_2exp(t, t, qs - 2); mpz_mul(t, t, kk);
+			if (mpz_sizeinbase(t, 2) >= ps) break;
+			mpz_mul_ui(kin, kin, 3); mpz_add_ui(kin, kin, 1);
+		}
 		gen_line("lprime_prefix", ps, qs, mr, kin);
 		// ordinary primes
 		gen_line("oprime", ps, 0, mr, zero);
